@@ -34,6 +34,12 @@ impl<'a> ::core::iter::Product for LtTag<'a> { fn product<I: Iterator<Item = Sel
 
 pub trait Tr { type Assoc; }
 impl Tr for i32 { type Assoc = u8; }
+
+/// An error type with two type arguments (only the second needs to be an error).
+#[derive(Debug)]
+pub struct Two<A, B>(pub A, pub B);
+impl<A, B> ::core::fmt::Display for Two<A, B> { fn fmt(&self, f: &mut ::core::fmt::Formatter<'_>) -> ::core::fmt::Result { f.write_str("two") } }
+impl<A: ::core::fmt::Debug, B: ::std::error::Error + 'static> ::std::error::Error for Two<A, B> {}
 '''
 
 DISPLAY_LIKE = ["Display", "Binary", "Octal", "LowerHex", "UpperHex", "LowerExp", "UpperExp", "Pointer"]
@@ -449,6 +455,9 @@ def special_items():
     yield Item(["Error", "Display", "Debug"], '#[display("e")]\npub enum @N@ { A(i32, i32) }', ("special", "single-variant-enum", "none", "plain", "error-no-source"))
     yield Item(["From", "TryInto", "Display", "Debug"], '#[try_into(owned, ref, ref_mut)]\npub enum @N@ { A(i32) }', ("special", "single-variant-enum", "none", "plain", "conv"))
     yield Item(["TryFrom"], "#[try_from(repr)]\n#[repr(u8)]\npub enum @N@ { A = 3 }", ("special", "single-variant-enum", "none", "plain", "try_from"))
+    # generic Error whose source type mentions the parameter in a later generic argument, next to concrete ones
+    yield Item(["Error", "Display", "Debug"], '#[display("e")]\npub struct @N@<T> { source: Two<u8, T> }', ("special", "error-generic-arg-source", "T", "plain", "second-arg"))
+    yield Item(["Error", "Display", "Debug"], '#[display("e")]\npub enum @N@<T, U> { A(Two<U, T>), B { source: Two<::std::vec::Vec<u8>, ::std::boxed::Box<T>> }, C(U, U) }', ("special", "error-generic-arg-source", "T,U", "plain", "enum"))
     # generic Error whose source is an associated type of a parameter (the bound must be put on the projection)
     yield Item(["Error", "Display", "Debug"], '#[display("e")]\npub struct @N@<T: Tr> { source: <T as Tr>::Assoc }', ("special", "error-assoc-source", "T", "plain", "qself"))
     yield Item(["Error", "Display", "Debug"], '#[display("e")]\npub struct @N@<T: Tr>(T::Assoc);', ("special", "error-assoc-source", "T", "plain", "path"))
